@@ -557,3 +557,52 @@ Proof.
   - rewrite (find_loopT_throw f l x post MSome pre 0 (or_intror (or_intror eq_refl)) Hp Hx'). reflexivity.
   - rewrite (flatmap_loopT_throw f l x post pre 0 Hp Hx'). reflexivity.
 Qed.
+
+(* ------------------------------------------------------------------ named arguments *)
+Lemma set_slot_same : forall i v l, nth i (set_slot i v l) ENull = v.
+Proof. induction i; intros v [|x l]; cbn; auto. Qed.
+Lemma set_slot_other : forall i j v l, i <> j -> nth j (set_slot i v l) ENull = nth j l ENull.
+Proof.
+  induction i; intros [|j] v [|x l] H; cbn; try congruence; auto.
+  - destruct j; reflexivity.
+  - rewrite IHi by congruence. destruct j; reflexivity.
+Qed.
+Lemma place_named_inv : forall pn npos named used acc args,
+  place_named pn npos used acc named = Some args ->
+  (forall j, (In j used \/ (j < npos)%nat) -> nth j args ENull = nth j acc ENull) /\
+  (forall n v, In (n, v) named -> exists i, pindex pn n 0 = Some i /\ (npos <= i)%nat /\ nth i args ENull = v).
+Proof.
+  induction named as [|[n v] r IH]; intros used acc args H; cbn [place_named] in H.
+  - inversion H; subst. split; [reflexivity | intros ? ? []].
+  - destruct (pindex pn n 0) as [i|] eqn:P; [|discriminate].
+    destruct ((i <? npos)%nat || existsb (Nat.eqb i) used) eqn:G; [discriminate|].
+    apply orb_false_iff in G. destruct G as [G1 G2]. apply Nat.ltb_ge in G1.
+    destruct (IH _ _ _ H) as [K1 K2]. split.
+    + intros j Hj. rewrite K1 by (destruct Hj; [left; right; assumption | right; assumption]).
+      apply set_slot_other. intro E; subst j. destruct Hj as [Hj|Hj]; [|lia].
+      assert (existsb (Nat.eqb i) used = true) by (apply existsb_exists; exists i; split; [assumption | apply Nat.eqb_refl]).
+      congruence.
+    + intros n' v' [E|Hin].
+      * inversion E; subst. exists i. repeat split; auto.
+        rewrite K1 by (left; left; reflexivity). apply set_slot_same.
+      * apply K2; assumption.
+Qed.
+Lemma named_binding_l : forall pn pos named args,
+  bind_named pn pos named = Some args ->
+  (forall j, (j < List.length pos)%nat -> nth j args ENull = nth j pos ENull) /\
+  (forall n v, In (n, v) named ->
+     exists i, pindex pn n 0 = Some i /\ (List.length pos <= i)%nat /\ nth i args ENull = v).
+Proof.
+  intros pn pos named args H. destruct (place_named_inv _ _ _ _ _ _ H) as [K1 K2]. split; auto.
+Qed.
+(* the name found is the name of a single (non-variadic) parameter at that position *)
+Lemma pindex_sound : forall pn n k i, pindex pn n k = Some i ->
+  (k <= i)%nat /\ nth_error pn (i - k) = Some (n, PSingle).
+Proof.
+  induction pn as [|[x kd] r IH]; intros n k i H; cbn in H; [discriminate|].
+  destruct kd.
+  - destruct (String.eqb x n) eqn:E.
+    + inversion H; subst. apply String.eqb_eq in E; subst. split; [lia|]. rewrite Nat.sub_diag. reflexivity.
+    + destruct (IH _ _ _ H) as [A B]. split; [lia|]. replace (i - k)%nat with (S (i - S k)) by lia. exact B.
+  - destruct (IH _ _ _ H) as [A B]. split; [lia|]. replace (i - k)%nat with (S (i - S k)) by lia. exact B.
+Qed.
